@@ -294,7 +294,9 @@ def prove_functions(spec_modules, keys, tier="quick", procs=16, lemma_groups=())
             for sh in range(ns):
                 tasks.append((spec_modules, k, var, timeout_ms, sh, ns))
     ctx = mp.get_context("fork")
-    with ctx.Pool(min(procs, max(1, len(tasks)))) as pool:
+    # one fresh process per task: z3's search depends on what the same context has seen before, so a worker that has already
+    # discharged other functions could behave differently from run to run (tasks are handed out dynamically)
+    with ctx.Pool(min(procs, max(1, len(tasks))), maxtasksperchild=1) as pool:
         lem_async = pool.apply_async(prove_bv_lemmas, (spec_modules, list(lemma_groups))) if lemma_groups else None
         results = pool.map(prove_one, tasks, chunksize=1)
         lem_res = lem_async.get() if lem_async else []
